@@ -1,3 +1,5 @@
+//go:build !kq
+
 package main
 
 import "github.com/fsnotify/fsnotify"
